@@ -246,7 +246,8 @@ func drawFaultBytes(t *rapid.T, label string, maxLen int) []byte {
 	case 1:
 		s = rapid.SliceOfN(rapid.Byte(), 0, 40).Draw(t, label)
 	case 2:
-		for _, p := range rapid.SliceOfN(pieceGen, 30, 150).Draw(t, label+"-long") {
+		n := rapid.SampledFrom([]int{0, 30, 64, 100, 150}).Draw(t, label+"-npieces")
+		for _, p := range rapid.SliceOfN(pieceGen, n, 150).Draw(t, label+"-long") {
 			s = append(s, p...)
 		}
 	default:
